@@ -219,6 +219,24 @@ pub struct CallObs {
 pub struct Sess {
     pub cli: CliT,
     pub term: Term,
+    /// reference view of the terminator pairing (A.9): 0, CR or LF still waiting for its other half.
+    /// Carried by the harness (not read from the decoder) so that a pairing defect anywhere between
+    /// `process_byte` and the decoder is visible to the dispatch monitor.
+    pub pend: u8,
+}
+
+pub fn ref_pending_after(pend: u8, key: &Key) -> u8 {
+    let term = match key {
+        Key::Cr | Key::Raw(13) => 13,
+        Key::Lf | Key::Raw(10) => 10,
+        _ => return 0,
+    };
+    let other = if term == 13 { 10 } else { 13 };
+    if pend == other {
+        0
+    } else {
+        term
+    }
 }
 
 pub struct H<'a> {
@@ -333,7 +351,7 @@ pub fn new_sess_deprecated(cb: usize, hb: usize, short: bool) -> Sess {
     let mut term = Term::default();
     let evs = cli.__verif_writer_mut().take();
     term.feed_all(&sink_bytes(&evs));
-    Sess { cli, term }
+    Sess { cli, term, pend: 0 }
 }
 
 pub fn new_sess(cb: usize, hb: usize, prompt: &'static str, short: bool) -> Sess {
@@ -349,7 +367,7 @@ pub fn new_sess(cb: usize, hb: usize, prompt: &'static str, short: bool) -> Sess
     let mut term = Term::default();
     let evs = cli.__verif_writer_mut().take();
     term.feed_all(&sink_bytes(&evs));
-    Sess { cli, term }
+    Sess { cli, term, pend: 0 }
 }
 
 fn finish_call(n: &mut Sess, kind: CallKind, res: std::thread::Result<Result<(), SinkErr>>, handler: Vec<HCall>) -> CallObs {
@@ -384,6 +402,7 @@ pub fn apply_in_place<C: Autocomplete + Help>(n: &mut Sess, e: &Ev) -> Vec<CallO
     let mut calls = vec![];
     match e {
         Ev::Key(k, mode) => {
+            n.pend = ref_pending_after(n.pend, k);
             for b in k.bytes() {
                 let mut log = vec![];
                 let res = {
@@ -434,6 +453,7 @@ pub struct SKey {
     pub prompt: &'static str,
     pub tline: String,
     pub tcol: usize,
+    pub pend: u8,
 }
 
 pub fn skey(s: &Sess) -> SKey {
@@ -447,6 +467,7 @@ pub fn skey(s: &Sess) -> SKey {
         prompt: sn.prompt,
         tline: s.term.trimmed(),
         tcol: s.term.col,
+        pend: s.pend,
     }
 }
 
